@@ -132,10 +132,23 @@ def _ms_list(ex, frame, e, base):
 
 # ---- the abstract mailbox
 
+def _stored_recent_iff_nobody_took_it(ex, frame, kw, site):
+    if ex.c.policy.prop != 'C17':
+        return
+    ds = ex.frames[0].env.get('dest_selected')
+    if ds is None:
+        return
+    taken = not isinstance(ds, VNone)
+    ex.oblige(f'{ex.c.name}/effect:{site}/stored_recent_exactly_when_no_selection_takes_it',
+              _b(kw.get('recent', VBool(False))) == z3.BoolVal(not taken))
+
+
 def _mbx(kind, ret=None, site=None):
     def model(ex, frame, e, base):
         args, kw = ex.eval_args(e, frame)
         name = site or e.func.attr
+        if kind in ('copy/move', 'append'):
+            _stored_recent_iff_nobody_took_it(ex, frame, kw, e.func.attr)
         if kind == 'copy/move':
             dest = args[1]
             if e.func.attr == 'move':
@@ -336,15 +349,24 @@ def make(prop):
         ('delete_mailbox', dict(self=SESSION, name=NameR, selected=SEL), {}),
         ('rename_mailbox', dict(self=SESSION, before_name=NameR, after_name=NameR, selected=SEL), {}),
         ('get_mailbox', dict(self=SESSION, name=NameR, selected=SEL), {}),
-        ('subscribe', dict(self=SESSION, name=NameR, selected=SEL), {}),
     ]
+    # the same methods with no mailbox selected (APPEND and the namespace commands are legal then)
+    for name, params, loops in list(specs):
+        if name in ('append_messages', 'create_mailbox', 'delete_mailbox', 'rename_mailbox', 'get_mailbox'):
+            p2 = dict(params)
+            p2['selected'] = NoneS()
+            specs.append((name + '@nothing-selected', p2, loops))
     out = []
     for name, params, loops in specs:
+        variant = f'{prop}-effects'
+        if '@' in name:
+            name, tag = name.split('@')
+            variant += '-' + tag
         c = Contract(prop, F, f'BaseSession.{name}', params=params, calls=CALLS, inline=INLINE,
                      requires=FL.CONSTS,
                      loops=loops, ghost_init=ghost_init, typemap={'MessageT': Msg},
                      globals={'Seen': FLAG_SEEN, 'FlagOp': FL.GLOBALS['FlagOp']},
-                     variant=f'{prop}-effects')
+                     variant=variant)
         if name == 'fetch_messages':
             # call-site precondition (established by ConnectionState.do_fetch, see contracts/state.py)
             c.requires = c.requires + [('set_seen_only_when_read_write',
